@@ -130,6 +130,18 @@ Theorem C11_step : forall st a v off w rest st' r s',
 Proof. exact wf_step. Qed.
 Print Assumptions C11_step.
 
+(* ---- Conn.offset is not disturbed by a broker error: after a Kafka error (after any result) the
+   Conn's offset is the one it was positioned at — for fetch the offset seeked to before the
+   call ([op_off], the model's Seek), for every other operation the offset it had.  Together with
+   C11_next_as_fresh (stated with [offset st']): the next operation behaves as on a fresh Conn
+   positioned at the SAME offset; the retry fetches from there, not from 0 ---- *)
+Theorem C11_kafka_error_keeps_offset : forall st o s st' c s',
+  conn_do st o s = (st', RErr (EKafka c), s') ->
+  offset st' = op_offset st o /\
+  (op_api o <> AFetch -> (forall acts, op_api o <> AFetchRead acts) -> offset st' = offset st).
+Proof. exact kafka_error_keeps_offset. Qed.
+Print Assumptions C11_kafka_error_keeps_offset.
+
 (* ---- version negotiation (negotiateVersion / loadVersions as a step of [conn_nop]; the state is
    (conn_state, cached version map)) ---- *)
 (* C11's first sentence for the implicit ApiVersions exchange: when it is answered by a
